@@ -138,7 +138,13 @@ fn check_classifier(site: &str, ctx: &str, rows: &[Vec<f64>], y: &[f64], n_trees
                 for i in 0..n {
                     let votes: Vec<f64> = (0..n_trees).filter(|t| !samples[*t][i]).map(|t| member[t][i]).collect();
                     if votes.is_empty() {
+                        // no out-of-bag tree: the vote is undefined, but whatever is returned must still be
+                        // one of the original label values ("classifier predictions are original label values")
                         mc::count("oob_rows_without_tree");
+                        if !classes.contains(&oob[i]) {
+                            mc::violation(format!("{}:oob-label-not-original", site), format!("{}: OOB prediction {} for row {} (in-bag for every tree) is not one of the labels {:?}", ctx, oob[i], i, classes));
+                            return;
+                        }
                         continue;
                     }
                     mc::count("oob_rows_checked");
